@@ -4,9 +4,13 @@
      ast.function_decls evaluated by OPA on
      regal's real bundle (value / undefined / eval_conflict_error) against Model/Framework.v + Model/Location.v;
   2. the exercised remainder (TESTING): linter.Lint with ALL rules enabled over the regal bundle, the OPA
-     conformance corpus, systematic families of parseable-but-not-compilable modules and of comment placements,
-     grammar-generated modules and mutations; any error / panic / hang on a parseable module is a violation with
-     the (minimised) module as replay;
+     conformance corpus, systematic families (parseable-but-not-compilable modules, comment placements, Rego-looking
+     text quoted inside strings / raw strings / comments of v0-only, v1-only and both-version modules with detected
+     and configured versions, line breaks at every token boundary), grammar-generated modules and mutations; plus
+     LARGE single-call runs (>= 1000 small files in ONE Lint call, every rule and rule subsets; thorough: again with
+     a harness built with -race). "Parseable" is decided by OPA's own parser (v1, then v0), not by regal's version
+     detection. Any parse rejection / error / panic / runtime fatal / hang / race report on modules OPA accepts is a
+     violation with the (minimised) modules as replay;
   3. proof gate for Props/C03.v.
 """
 import base64, json, os, re
